@@ -8,14 +8,14 @@ os.makedirs(dst,exist_ok=True)
 for f in os.listdir(src): shutil.copy(os.path.join(src,f),dst)
 m=json.load(open(os.path.join(dst,'meta.json')))
 out=open('/tmp/seeded-out/%s-%s.check'%(i,sv)).read()
-line=[l for b in ('batch1.txt','batch2.txt','batch3.txt') if os.path.exists('/tmp/seeded-out/'+b) for l in open('/tmp/seeded-out/'+b) if l.startswith('%s/%s:'%(i,sv))][-1]
+line=[l for b in sorted(os.listdir('/tmp/seeded-out')) if b.startswith('batch') for l in open('/tmp/seeded-out/'+b) if l.startswith('%s/%s:'%(i,sv))][-1]
 assert 'demo_without=0 demo_with=1' in line and 'build=0' in line, line
 failed=re.findall(r'^FAILED (\S+)',out,re.M)
 viol=re.findall(r'^VIOLATION .*$',out,re.M)
 summary=[l for l in out.splitlines() if re.match(r'^C\d\d: \d+ obligations',l)]
 m.update({
- "property":i,"variant":dv,"round":4,
- "author":"independent sub-agent given only the property text and a scratch worktree (round 4: asked for changes that need a specific input, sequence, fault point or two cooperating sites)",
+ "property":i,"variant":dv,"round":int(os.environ.get("SEED_ROUND","4")),
+ "author":"independent sub-agent given only the property text and a scratch worktree (rounds 4-6: asked for changes that need a specific input, sequence, fault point or two cooperating sites)",
  "confirmed_by_me":"tools/seedbatch.sh on a private clone of /repo without the contract files: the patch applies; go build ./... and the suite pass with it (only the pre-existing mathext/zipf failures); the demo passes without the change (exit 0) and fails with it (exit 1)",
  "check_run":"on the clone with the patch applied: bin/govc -repo <clone> -prop %s -tier quick (= ./check %s against that tree)"%(i,i),
  "check_result":"detected" if viol else "MISSED",
